@@ -468,6 +468,19 @@ class Interp:
                 return [("tuple", tuple(C(v) for v in c)) for c in combos]
         if it[0] == "call" and it[1] in ("builtins.list", "builtins.tuple") and len(it[2]) == 1 and not it[3]:
             return self._const_iter(it[2][0])
+        if it[0] == "call" and it[1] == "builtins.zip" and it[2] and not it[3]:
+            cols = [self._const_iter(a) if a[0] == "call" else (list(a[1]) if a[0] in ("list", "tuple") else None) for a in it[2]]
+            if all(c is not None for c in cols) and len({len(c) for c in cols}) == 1 and 0 < len(cols[0]) <= self.MAX_UNROLL:
+                return [("tuple", tuple(c[k] for c in cols)) for k in range(len(cols[0]))]
+        if it[0] == "call" and it[1] == "builtins.enumerate" and it[2] and not it[3]:
+            inner = self._const_iter(it[2][0]) if it[2][0][0] == "call" else (list(it[2][0][1]) if it[2][0][0] in ("list", "tuple") else None)
+            start = 0
+            if len(it[2]) == 2 and is_const(it[2][1]) and isinstance(it[2][1][1], int):
+                start = it[2][1][1]
+            elif len(it[2]) == 2:
+                inner = None
+            if inner is not None and len(inner) <= self.MAX_UNROLL:
+                return [("tuple", (C(start + k), v)) for k, v in enumerate(inner)]
         return None
 
     def exec_for(self, s: ast.For) -> bool:
@@ -1118,6 +1131,10 @@ class Interp:
                 return C(abs(vals[0]))
             if fname != "builtins.abs" and len(vals) >= 2:
                 return C(max(vals) if fname == "builtins.max" else min(vals))
+        if fname == "builtins.int" and len(args) == 1 and not kwargs and args[0][0] == "call" and args[0][1] == "builtins.round" and len(args[0][2]) == 1 and not args[0][3]:
+            return args[0]          # round(x) with one argument already is an int
+        if fname in ("numpy.asarray", "numpy.asanyarray") and len(args) == 1 and not kwargs and args[0][0] in ("list", "tuple", "comp"):
+            return ("call", "numpy.array", args, kwargs)        # a fresh list / comprehension: asarray and array build the same new array
         if fname == "numpy.expand_dims" and args and (dict(kwargs).get("axis") == C(0) or (len(args) == 2 and args[1] == C(0))) and len(kwargs) <= 1:
             # np.expand_dims(a, axis=0) is a[np.newaxis, :] for a vector (the one spelling the rules know)
             return ("sub", args[0], ("tuple", (("mod", "numpy.newaxis"), ("slice", NONE, NONE, NONE))))
